@@ -19,7 +19,7 @@
               what /repo does now, measured by the harness on every run; variant_repaired =
               after the proposed fixes).  Value/type theorems hold for EVERY variant.       *)
 From Coq Require Import ZArith QArith Reals List Bool Ring.
-From Verif Require Import Base.Num Base.Vec C04.Model C04.ModelIP C04.Cplx Gen.OpTables C04.Tables C04.Proofs C04.ProofsIP C04.Instances C04.Refuted.
+From Verif Require Import Base.Num Base.Vec C04.Model C04.ModelIP C04.ModelMem C04.Cplx Gen.OpTables C04.Tables C04.Proofs C04.ProofsIP C04.ProofsMem C04.Instances C04.Refuted.
 Import ListNotations.
 
 (* T1 (core).  Over ANY commutative ring carried by the Num class (covers R, C, Qc): for every
@@ -230,3 +230,62 @@ Print Assumptions flags_follow_source_table.
 Theorem domains_follow_source_table : forall (T : Type) (o : oexpr T),
   odom o = odom_step o.
 Proof. exact @Tables.odom_table. Qed.
+
+(* T1 (memory contract of leaves made explicit).  C04/ModelMem.v runs the _call bodies on a
+   store of buffers; x, out, results and temporaries are buffer ids.  Each leaf carries a
+   contract  [kon (l_id l)] : k_fresh (the out-of-place result is a new buffer; false = it
+   returns (a view of) its input, e.g. RealPart on a real space, FlatteningOperator,
+   `return x`)  and  k_alias (the in-place call tolerates out == x; false for
+   PartialDerivative, Laplacian, loop/stencil code).  NOTHING is assumed about these flags;
+   the only side condition is [returns_input_ok]: a leaf that returns its input is the identity.
+
+   Out of place, for every tree: no pre-existing buffer is modified (x in particular: the same
+   point can be evaluated again), the result buffer holds the table value, and it is either x
+   itself or a new buffer -- new whenever [ofresh] (computed from the leaves' flags) says so. *)
+Theorem outofplace_memory_safe : forall (T : Type) (N : Num T),
+  ring_theory nzero none_ nadd nmul nsub nopp (@eq T) ->
+  forall (kon : nat -> lcontract),
+  (forall u c : T, ndiv u c = nmul (ndiv none_ c) u) ->
+  (forall a b : T, neqb a b = true -> a = b) ->
+  forall (vt : variant) (s : sexpr T) (o : oexpr T),
+  sleaves_ok s -> ssat (returns_input_ok kon) s -> build vt s = Ok o ->
+  forall (st : store) (x : nat) (xv : list T),
+    (x < next st)%nat -> sget st x = pure xv -> length xv = dim (sdom s) ->
+  forall (st' : store) (r : nat), oop kon o st x = (st', r) ->
+    (forall i, (i < next st)%nat -> mem st' i = mem st i)
+    /\ sget st' r = pure (denote s xv)
+    /\ (r = x \/ (next st <= r)%nat)
+    /\ (ofresh kon o = true -> (next st <= r)%nat).
+Proof. exact @ProofsMem.build_oop_memory_safe. Qed.
+Print Assumptions outofplace_memory_safe.
+
+(* In place, for every vector-valued tree: if out is not x -- or out IS x and [oalias] (computed
+   from the leaves' flags: sums/products need it of their right operand, left multiplications and
+   `+ v` of their operand; compositions, right multiplications and v*f route through a temporary
+   and need nothing) holds -- then only `out` is written, it ends up holding the table value, and
+   no operand is ever called in place with its own input as `out` unless it tolerates that.  In
+   particular A ** n (nested compositions, one temporary PER level) is correct in place for
+   every n and every leaf, alias-safe or not. *)
+Theorem inplace_memory_safe : forall (T : Type) (N : Num T),
+  ring_theory nzero none_ nadd nmul nsub nopp (@eq T) ->
+  forall (kon : nat -> lcontract),
+  (forall u c : T, ndiv u c = nmul (ndiv none_ c) u) ->
+  (forall a b : T, neqb a b = true -> a = b) ->
+  forall (vt : variant) (s : sexpr T) (o : oexpr T),
+  sleaves_ok s -> ssat (returns_input_ok kon) s -> build vt s = Ok o -> (exists n, sran s = SV n) ->
+  forall (st : store) (x out : nat) (xv : list T),
+    (x < next st)%nat -> (out < next st)%nat -> (x <> out \/ oalias kon o = true) ->
+    sget st x = pure xv -> length xv = dim (sdom s) ->
+    (forall i, (i < next st)%nat -> i <> out -> mem (ip kon o st x out) i = mem st i)
+    /\ sget (ip kon o st x out) out = pure (denote s xv).
+Proof. exact @ProofsMem.build_ip_memory_safe. Qed.
+Print Assumptions inplace_memory_safe.
+
+(* how the expression classes propagate the contract (definitional; shown for the reader) *)
+Example contract_propagation : forall (T : Type) (kon : nat -> lcontract) (a b : oexpr T) (v : list T) (c : T) fn,
+  oalias kon (OComp fn a b) = true /\ oalias kon (ORScal fn a c) = true /\ oalias kon (ORVec fn a v) = true
+  /\ oalias kon (OSum fn a b) = oalias kon b /\ oalias kon (OLVec a v) = oalias kon a
+  /\ oalias kon (OLScal fn a c) = oalias kon a /\ oalias kon (OVecSum a v) = oalias kon a
+  /\ ofresh kon (OComp fn a b) = (ofresh kon a || ofresh kon b)%bool
+  /\ ofresh kon (OLVec a v) = true /\ ofresh kon (OSum fn a b) = true /\ ofresh kon (OVecSum a v) = true.
+Proof. intros. repeat split; reflexivity. Qed.
